@@ -693,18 +693,27 @@ def process_fn(toks, it, fs: FnSpec, qual, ed: Edits, log, unit_in_trait_impl):
             raise LostAnchor(f"{qual}: deref {ident} {op}: no occurrence")
         log["rewrites"].append({"rule": "R9", "fn": qual, "before": f"{ident} {op} …", "after": f"*{ident} {op} …", "count": cnt})
     # R17 (automatic): `for .. { if C { S; continue; } REST }`  ->  `for .. { if C { S; } else { REST } }`
-    # (Verus's for loops have no `continue`; the two forms are the same control flow)
+    # (Verus's for loops have no `continue`; the two forms are the same control flow).  `continue` in while / loop is
+    # supported by Verus and left alone.
+    _lps17 = None
     for k in range(lo, hi):
         t = toks[k]
         if not (t.kind == "ident" and t.text == "continue"):
             continue
+        if _lps17 is None:
+            _lps17 = [(l.body_open, match_close(toks, l.body_open), l.kind) for l in find_loops(toks, lo, hi)]
+        inner = None
+        for (bo, bc, kind) in _lps17:
+            if bo < k < bc and (inner is None or bo > inner[0]):
+                inner = (bo, bc, kind)
+        if inner is None or inner[2] != "for":
+            continue
         semi = next_sig(toks, k + 1, hi)
         if semi is None or toks[semi].text != ";":
-            continue
+            raise LostAnchor(f"{qual}: R17: unsupported `continue` form in a for loop")
         ifclose = next_sig(toks, semi + 1, hi)
         if ifclose is None or toks[ifclose].text != "}":
             raise LostAnchor(f"{qual}: R17: `continue` is not the last statement of its block")
-        # the block that ends at ifclose
         depth = 0
         ifopen = None
         for q in range(ifclose, lo - 1, -1):
@@ -716,27 +725,16 @@ def process_fn(toks, it, fs: FnSpec, qual, ed: Edits, log, unit_in_trait_impl):
         after = next_sig(toks, ifclose + 1, hi)
         if ifopen is None or (after is not None and toks[after].text == "else"):
             raise LostAnchor(f"{qual}: R17: unsupported shape around `continue`")
-        # parent block = a for-loop body
-        lps = find_loops(toks, lo, hi)
-        parent = None
-        for l in lps:
-            bc = match_close(toks, l.body_open)
-            if l.body_open < ifopen and ifclose < bc:
-                if parent is None or l.body_open > parent[0]:
-                    parent = (l.body_open, bc, l.kind)
-        if parent is None or parent[2] != "for":
-            continue    # `continue` in while / loop: supported by Verus
-        # the if must sit directly in the loop body: no other open block between
+        # the if must sit directly in the for body
         depth = 0
-        direct = True
-        for q in range(parent[0] + 1, ifopen):
+        for q in range(inner[0] + 1, ifopen):
             if toks[q].kind == "punct" and toks[q].text == "{": depth += 1
             elif toks[q].kind == "punct" and toks[q].text == "}": depth -= 1
         if depth != 0:
             raise LostAnchor(f"{qual}: R17: `continue` nested deeper than an `if` directly in the for body")
         ed.replace(toks[k].pos, toks[semi].end, "")
         ed.insert(toks[ifclose].end, " else {", prio=-2)
-        ed.insert(toks[parent[1]].pos, "} ", prio=2)
+        ed.insert(toks[inner[1]].pos, "} ", prio=2)
         log["rewrites"].append({"rule": "R17", "fn": qual, "before": "if C { S; continue; } REST", "after": "if C { S; } else { REST }", "count": 1})
     # R16: X.is_some_and(|p| BODY) -> (match X { Some(p) => BODY, None => false })   [closures that capture `&mut`
     # state are outside Verus's dialect; the match is what Option::is_some_and is defined to do]
